@@ -300,6 +300,80 @@ func c07SortedKeys(c *Ctx) {
 		}
 	}
 	r.Check(okOrder, "C07-K2", key("after the sorted keys come 82 and then 255"), c.P.ipos(sortCall), "two post-sort appends: const 82, then const 255", fmt.Sprintf("post-sort appends: %v", got))
+	// … and each is appended exactly when that key is PRESENT in the map (whatever its value): the deciding
+	// condition is a flag raised on the loop's key == K edge, or the comma-ok result of a lookup of K — not a
+	// test of the value (a nil or empty value is still an option that must be emitted)
+	gcc := newGuardCache(c)
+	for i, ap := range post {
+		if i >= len(got) {
+			break
+		}
+		k := got[i]
+		okPresence, seenCond := false, ""
+		for _, ft := range gcc.of(ap.Block()) {
+			if !ft.pol {
+				continue
+			}
+			switch v := ft.cond.(type) {
+			case *ssa.Phi:
+				// flag: every true edge comes from a block entered only through key == k
+				flag := true
+				nTrue := 0
+				for j, e := range v.Edges {
+					kb, isK := boolConst(e)
+					if isK && !kb {
+						continue
+					}
+					if e == ssa.Value(v) {
+						continue
+					}
+					if ph2, ok := e.(*ssa.Phi); ok && ph2 == v {
+						continue
+					}
+					if !isK {
+						// loop-carried copy of the flag itself
+						if pp, ok := e.(*ssa.Phi); ok && dependsOnBoolPhi(pp, v) {
+							continue
+						}
+						flag = false
+						continue
+					}
+					nTrue++
+					pred := v.Block().Preds[j]
+					onKey := false
+					for _, f2 := range gcc.of(pred) {
+						if bo, ok := f2.cond.(*ssa.BinOp); ok && bo.Op == token.EQL && f2.pol {
+							if kk, isKK := intConst(bo.Y); isKK && kk == k {
+								onKey = true
+							}
+							if kk, isKK := intConst(bo.X); isKK && kk == k {
+								onKey = true
+							}
+						}
+					}
+					if !onKey {
+						flag = false
+					}
+				}
+				if flag && nTrue > 0 {
+					okPresence = true
+				}
+				seenCond = sx.Of(v).String()
+			case *ssa.Extract:
+				if lk, ok := v.Tuple.(*ssa.Lookup); ok && lk.CommaOk && v.Index == 1 {
+					if kk, isKK := intConst(stripConv(lk.Index)); isKK && kk == k {
+						okPresence = true
+					}
+				}
+			default:
+				if seenCond == "" {
+					seenCond = sx.Of(ft.cond).String()
+				}
+			}
+		}
+		r.Check(okPresence, "C07-K2", key(fmt.Sprintf("code %d is appended exactly when the key is present", k)), c.P.ipos(ap), "guard is a flag raised on key == K in the loop, or the ok of a lookup",
+			fmt.Sprintf("the append of %d is decided by %s, not by the presence of the key: an option %d whose value is nil or empty is dropped from the encoding", k, seenCond, k))
+	}
 	// no element stores / swaps after the sort
 	allInstrs(f, func(in ssa.Instruction) {
 		st, ok := in.(*ssa.Store)
@@ -578,4 +652,26 @@ func sortedKeysComplete(c *Ctx, rule string) {
 	r.Check(!reach[hdr] || body == app.Block() && false, rule, key("every key other than 82/255 reaches the collecting append"), c.P.ipos(app),
 		"no path from the loop body back to the iterator avoids the append except through key == 82 / key == 255 ("+strings.Join(allowed, ", ")+")",
 		"an iteration can return to the iterator without appending its key and without being option 82 or 255: some options (e.g. those selected by a test on the value) are silently left out of the encoding")
+}
+
+// dependsOnBoolPhi: p is (transitively, through φs only) the flag φ itself carried round the loop
+func dependsOnBoolPhi(p *ssa.Phi, flag *ssa.Phi) bool {
+	seen := map[*ssa.Phi]bool{}
+	var walk func(x *ssa.Phi) bool
+	walk = func(x *ssa.Phi) bool {
+		if x == flag {
+			return true
+		}
+		if seen[x] {
+			return false
+		}
+		seen[x] = true
+		for _, e := range x.Edges {
+			if q, ok := e.(*ssa.Phi); ok && walk(q) {
+				return true
+			}
+		}
+		return false
+	}
+	return walk(p)
 }
